@@ -1,6 +1,136 @@
-(* Props/C05.v — provisional; replaced below by the full list of pinned statements. *)
-From BSV Require Import Base.Bytes Prim.Num Prim.Secp256k1 Proofs.Secp256k1Proofs.
+(* Props/C05.v — pinned statements of property C05 (ECDSA signatures verify, are low-S, deterministic ones follow
+   RFC 6979; ECDH is symmetric).  Statements only; proofs in Proofs/EcdsaProofs.v, Proofs/EcdsaSecp.v,
+   Proofs/EcdsaAbstract.v, Proofs/Secp256k1Proofs.v.
+
+   The statements are about the reference instance [ref_prims] (Z arithmetic) of the model Model/Ecdsa.v.
+   The correspondence check executes the BigZ instance [fast_prims]; Proofs/EcdsaRefine.v proves the two equal
+   (that file, and only it, depends on the Uint63 axioms of the standard library).
+
+   PREMISE [secp256k1_group] (Proofs/EcdsaSecp.v) of the "verifies" / ECDH statements: on valid points (on the curve,
+   coordinates in [0,p)) padd / pneg / smul of Prim/Secp256k1.v are closed and form an abelian group with Z-action
+   smul; n is prime; lift_x inverts (xcoord, yodd); yodd (pneg P) = negb (yodd P); G has order exactly n.
+   It is the trusted statement that secp256k1 is a group of prime order — not proved here.  What IS proved for the
+   concrete formulas: n*G = O (by evaluation), O + P = P, x(-P) = x(P), modular inverses by extended Euclid.
+   Proofs/EcdsaAbstractInst.v shows that the abstract hypotheses are jointly satisfiable (toy group).
+
+   NOT a theorem (`partial`): "fails to verify for a different message, hash choice or key" — it needs collision
+   resistance of SHA-256 and the discrete-log structure; it is sampled by the correspondence run
+   (op ecdsa.sign_verify with another key / message / hash, mutated signatures in the ecdsa.verify ops). *)
+From BSV Require Import Base.Bytes Base.Hex.
+From BSV Require Import Prim.Num Prim.Secp256k1 Prim.Rfc6979 Model.HashApi Model.Ecdsa Spec.EcdsaSpec.
+From BSV Require Import Proofs.Secp256k1Proofs Proofs.EcdsaSecp Proofs.EcdsaProofs.
 Local Open Scope Z_scope.
-Theorem C05_prim_low_s : forall d k z r s v, prim_sign d k z = Some (r, s, v) -> 1 <= s <= secp_n / 2.
-Proof. exact low_s. Qed.
-Print Assumptions C05_prim_low_s.
+
+(* 1. Every signature returned by a signing entry point verifies under the signer's public key, for the same
+      message and hash choice.  Signer and verifier compute the same message scalar; the rest is ecdsa_correct. *)
+Theorem C05_prim_sign_verifies :
+  secp256k1_group -> forall d k z r s v,
+  0 < k < secp_n -> prim_sign d k z = Some (r, s, v) -> prim_verify (smul d G) z (r, s) = true.
+Proof. exact secp_ecdsa_correct. Qed.
+Print Assumptions C05_prim_sign_verifies.
+
+Theorem C05_sign_det_verifies :
+  secp256k1_group -> forall sk m a rk sg,
+  valid_sk sk -> sign_with_deterministic_k ref_prims sk m a rk = Ok sg ->
+  verify_digest ref_prims m (to_public_key ref_prims sk) sg a = Ok true.
+Proof. exact sign_det_verifies. Qed.
+Print Assumptions C05_sign_det_verifies.
+
+Theorem C05_sign_message_verifies :
+  secp256k1_group -> forall sk m sg,
+  valid_sk sk -> sign_message ref_prims sk m = Ok sg ->
+  verify_message ref_prims sg m (to_public_key ref_prims sk) = true.
+Proof. exact sign_message_verifies. Qed.
+Print Assumptions C05_sign_message_verifies.
+
+Theorem C05_sign_digest_verifies :
+  secp256k1_group -> forall sk dg sg,
+  valid_sk sk -> sign_digest_with_deterministic_k ref_prims sk dg = Ok sg ->
+  verify_hashbuf ref_prims dg (to_public_key ref_prims sk) sg = Ok true.
+Proof. exact sign_digest_verifies. Qed.
+Print Assumptions C05_sign_digest_verifies.
+
+Theorem C05_sign_with_k_verifies :
+  secp256k1_group -> forall sk ek m a sg,
+  valid_sk sk -> valid_sk ek -> sign_with_k ref_prims sk ek m a = Ok sg ->
+  verify_digest ref_prims m (to_public_key ref_prims sk) sg a = Ok true.
+Proof. exact sign_with_k_verifies. Qed.
+Print Assumptions C05_sign_with_k_verifies.
+
+(* for every value of the operating-system entropy *)
+Theorem C05_sign_random_verifies :
+  secp256k1_group -> forall sk m a rk entropy sg,
+  valid_sk sk -> sign_with_random_k ref_prims sk m a rk entropy = Ok sg ->
+  verify_digest ref_prims m (to_public_key ref_prims sk) sg a = Ok true.
+Proof. exact sign_random_verifies. Qed.
+Print Assumptions C05_sign_random_verifies.
+
+(* compressed or uncompressed key: the verifier sees the same point *)
+Theorem C05_compression_irrelevant :
+  secp256k1_group -> forall sk c m a sg,
+  valid_sk sk ->
+  verify_digest ref_prims m (to_public_key ref_prims (compress_public_key sk c)) sg a =
+  verify_digest ref_prims m (to_public_key ref_prims sk) sg a.
+Proof. exact verify_compression_irrelevant. Qed.
+Print Assumptions C05_compression_irrelevant.
+
+(* 2. No produced signature has s above half the group order (and r, s are in range) — unconditional. *)
+Theorem C05_low_s_det : forall sk m a rk sg, sign_with_deterministic_k ref_prims sk m a rk = Ok sg -> sig_low sg.
+Proof. exact sign_det_low. Qed.
+Print Assumptions C05_low_s_det.
+Theorem C05_low_s_message : forall sk m sg, sign_message ref_prims sk m = Ok sg -> sig_low sg.
+Proof. exact sign_message_low. Qed.
+Print Assumptions C05_low_s_message.
+Theorem C05_low_s_digest : forall sk dg sg, sign_digest_with_deterministic_k ref_prims sk dg = Ok sg -> sig_low sg.
+Proof. exact sign_digest_low. Qed.
+Print Assumptions C05_low_s_digest.
+Theorem C05_low_s_with_k : forall sk ek m a sg, sign_with_k ref_prims sk ek m a = Ok sg -> sig_low sg.
+Proof. exact sign_with_k_low. Qed.
+Print Assumptions C05_low_s_with_k.
+Theorem C05_low_s_random : forall sk m a rk entropy sg, sign_with_random_k ref_prims sk m a rk entropy = Ok sg -> sig_low sg.
+Proof. exact sign_random_low. Qed.
+Print Assumptions C05_low_s_random.
+
+(* 3. Deterministic signatures are functions of their inputs (definitional) and equal RFC 6979 (HMAC-SHA256 nonce) +
+      textbook ECDSA + low-S normalisation as stated in Spec/EcdsaSpec.v, for both hash choices and both nonce
+      byte orders (reversed order: h1 is the byte-reversed digest) — unconditional. *)
+Theorem C05_det_is_rfc6979 :
+  forall sk m a rk,
+  rs_of (sign_with_deterministic_k ref_prims sk m a rk) = of_option (spec_sign_det prim_sign (sk_d sk) (is_double a) m rk).
+Proof. exact sign_det_is_rfc6979. Qed.
+Print Assumptions C05_det_is_rfc6979.
+Theorem C05_sign_message_is_rfc6979 :
+  forall sk m, rs_of (sign_message ref_prims sk m) = of_option (spec_sign_det prim_sign (sk_d sk) false m false).
+Proof. exact sign_message_is_rfc6979. Qed.
+Print Assumptions C05_sign_message_is_rfc6979.
+Theorem C05_sign_digest_is_rfc6979 :
+  forall sk dg, length dg = 32%nat ->
+  rs_of (sign_digest_with_deterministic_k ref_prims sk dg) = of_option (spec_sign_digest prim_sign (sk_d sk) dg).
+Proof. exact sign_digest_is_rfc6979. Qed.
+Print Assumptions C05_sign_digest_is_rfc6979.
+Theorem C05_sign_with_k_is_ecdsa :
+  forall sk ek m a,
+  rs_of (sign_with_k ref_prims sk ek m a) = of_option (spec_sign_k prim_sign (sk_d sk) (sk_d ek) (is_double a) m).
+Proof. exact sign_with_k_is_ecdsa. Qed.
+Print Assumptions C05_sign_with_k_is_ecdsa.
+
+(* 4. Diffie-Hellman: symmetric, and equal to the x coordinate of (a*b) G. *)
+Theorem C05_ecdh_symmetric :
+  secp256k1_group -> forall a b, valid_sk a -> valid_sk b ->
+  derive_shared_key ref_prims a (to_public_key ref_prims b) = derive_shared_key ref_prims b (to_public_key ref_prims a).
+Proof. exact ecdh_symmetric_keys. Qed.
+Print Assumptions C05_ecdh_symmetric.
+Theorem C05_ecdh_shared_point :
+  secp256k1_group -> forall a b, valid_sk a -> valid_sk b ->
+  derive_shared_key ref_prims a (to_public_key ref_prims b) = Ok (be32 (xcoord (smul (sk_d a * sk_d b) G))).
+Proof. exact ecdh_shared_point. Qed.
+Print Assumptions C05_ecdh_shared_point.
+
+(* Non-vacuity and anchoring: the published secp256k1 / RFC 6979 vector (key 1, "Satoshi Nakamoto", SHA-256) through the
+   MODEL's entry point on the reference instance (one scalar multiplication over Z: about half a minute). *)
+Example C05_vector_satoshi :
+  rs_of (sign_with_deterministic_k ref_prims {| sk_d := 1; sk_compressed := true |}
+           (bytes_of_string "Satoshi Nakamoto") SHSha256 false)
+  = Ok (0x934b1ea10a4b3c1757e2b0c017d0b6143ce3c9a7e6a4a49860d7a6ab210ee3d8,
+        0x2442ce9d2b916064108014783e923ec36b49743e2ffa1c4496f01a512aafd9e5).
+Proof. vm_compute. reflexivity. Qed.
